@@ -409,7 +409,11 @@ def cases(tier, seed):
         for target in (65534, 65535, 65536, 65537):
             cs.append({"id": "boundary:cffindex%d:%s" % (target, _fid(rec)), "group": "boundary", "kind": "cffindex",
                        "target": target, "path": rec["path"], "member": None, "seed": seed, "configs": bcfg})
+    hv_hosts = []
     for rec in rnd.sample(var, min(len(var), 15 if T else 5)) + rnd.sample(plain, 6 if T else 1):
+        if rec["path"] not in [h["path"] for h in hv_hosts]:
+            hv_hosts.append(rec)
+    for rec in hv_hosts:
         for rows in ((100, 256, 257, 300, 1000) if T else (rnd.choice([100, 256]), 257, rnd.choice([300, 1000]))):
             cs.append({"id": "boundary:hvar%d:%s" % (rows, _fid(rec)), "group": "boundary", "kind": "hvar", "rows": rows,
                        "path": rec["path"], "member": None, "seed": seed, "configs": bcfg})
